@@ -515,3 +515,14 @@ V("ge-table-perm-only-restricted", ["C04"], GE + ["TABLE-INDEX"], "fire",
 V("ge-assign-not-add", ["C04", "C07"], GE + ["ACCUMULATE-ONLY"], "fire", (EGP, "                body.append(L.AssignAdd(A[multi_index], Brhs))", "                body.append(L.Assign(A[multi_index], Brhs))"))
 V("ge-loop-bound-plus-one", ["C08"], GE, "fire", (EGP, "                body = L.ForRange(B_indices[i + 1], 0, blockdims[i], body=body)", "                body = L.ForRange(B_indices[i + 1], 0, blockdims[i] + 1, body=body)"))
 V("ge-benign-float-product-order", ["C04"], GE, "benign", (EGP, "                Brhs = L.float_product([f] + arg_factors)\n                indices = [A_indices[0], fi_ci[1]]", "                Brhs = L.float_product(arg_factors + [f])\n                indices = [A_indices[0], fi_ci[1]]"))
+
+# ---- GEN-FORM ----------------------------------------------------------------------------------------
+GF = ["GEN-FORM"]
+COM = "ffcx/codegeneration/common.py"
+V("gf-names-not-permuted", ["C06"], GF, "fire", (COM, "        names += [ir.integral_names[itg_type][i] for i in id_sort]", "        names += list(ir.integral_names[itg_type])"))
+V("gf-offsets-count-groups", ["C06"], GF, "fire", (COM, "        offsets.append(offsets[-1] + sum(len(d) for d in ir.integral_domains[itg_type]))", "        offsets.append(offsets[-1] + len(ir.integral_domains[itg_type]))"))
+V("gf-type-order", ["C06"], GF, "fire", (COM, "    for itg_type in (\"cell\", \"exterior_facet\", \"interior_facet\", \"vertex\", \"ridge\"):", "    for itg_type in (\"cell\", \"interior_facet\", \"exterior_facet\", \"vertex\", \"ridge\"):"))
+V("gf-descending-ids", ["C06"], GF, "fire", (COM, "        id_sort = np.argsort(_ids)", "        id_sort = np.argsort(_ids)[::-1]"))
+V("gf-numba-ids-per-group", ["C18"], GF, "fire", ("ffcx/codegeneration/numba/form.py", "            f\"{i}\" for i, domains in zip(integrals.ids, integrals.domains) for _ in domains", "            f\"{i}\" for i in integrals.ids"))
+V("gf-c-hash-none-as-one", ["C06"], GF, "fire", ("ffcx/codegeneration/C/form.py", "            f\"UINT64_C({0 if el is None else el})\" for el in ir.finite_element_hashes", "            f\"UINT64_C({1 if el is None else el})\" for el in ir.finite_element_hashes"))
+V("gf-benign-sorted-range", ["C06"], GF, "benign", (COM, "        id_sort = np.argsort(_ids)", "        id_sort = sorted(range(len(_ids)), key=lambda i: _ids[i])"))
